@@ -96,6 +96,10 @@ def gen_merge(ck):
                 add("inconsistent_counts", dict(base), src[:-1], tgt, split)
                 add("inconsistent_counts", dict(base), src, tgt + [100 + k], split)
                 add("inconsistent_counts", dict(base), src, tgt, split + 1)
+                for r in range(1, split):       # a surplus of 1 .. split-1 sources (k*split + r files for k targets)
+                    extra = {300 + j: arr(rng, L) for j in range(r)}
+                    files = dict(base); files.update(extra)
+                    add("inconsistent_counts", files, src + list(extra), tgt, split)
                 if k > 1:
                     add("inconsistent_counts", dict(base), src, tgt[:-1], split)
                 # a source listed twice in place of another one (allowed: same file read twice)
